@@ -259,3 +259,33 @@ def canon_base(b, defs, pl, depth=8):
         else:
             return None
     return None
+
+
+def resolve_loc(b, defs, pl, depth=10):
+    """(base local, tuple of field indices) a place designates, with leading derefs of references (`(*_p).f`, _p = &mut _s or a
+    copy of such a reference) resolved to the referent; None when the place involves indexing / downcasts"""
+    base, proj = pl["l"], list(pl["p"])
+    for _ in range(depth):
+        if proj and proj[0] == "d":
+            d = single_def(defs, base)
+            if d is None or d[1] == "term":
+                return None
+            rv = d[2]
+            if rv.get("k") == "ref":
+                base, proj = rv["pl"]["l"], list(rv["pl"]["p"]) + proj[1:]
+                continue
+            if rv.get("k") in ("use", "cast") and rv["op"].get("o") in ("copy", "move"):
+                base, proj = rv["op"]["pl"]["l"], list(rv["op"]["pl"]["p"]) + proj
+                continue
+            return None
+        break
+    path = []
+    for e in proj:
+        if isinstance(e, dict) and "f" in e:
+            path.append(e["f"])
+        else:
+            return None
+    if path:
+        # a struct moved as a whole (`_b = move _a`, e.g. into a by-value `self` parameter) keeps its identity
+        base = origin_local(b, defs, base)
+    return base, tuple(path)
